@@ -163,6 +163,34 @@ impl Scenario for S9 {
                             return;
                         }
                     }
+                    // two filters that agree in every published parameter but come from different
+                    // constructors: sized by accuracy target vs by explicit parameters
+                    if case.keys.len() >= 2 {
+                        let p = case.p_milli as f64 / 1000.0;
+                        let mut wp = BloomFilter::<u64>::with_properties(case.keys.len().max(4) * 4, p);
+                        if wp.m() > 0 && wp.k() > 0 {
+                            let mut ex = BloomFilter::<u64>::with_params(wp.m(), wp.k());
+                            let mut wp2 = BloomFilter::<u64>::with_properties(case.keys.len().max(4) * 4, p);
+                            let mut ex2 = BloomFilter::<u64>::with_params(wp.m(), wp.k());
+                            for &key in &case.keys[..half] {
+                                wp.insert(&key).unwrap();
+                                ex2.insert(&key).unwrap();
+                            }
+                            for &key in &case.keys[half..] {
+                                ex.insert(&key).unwrap();
+                                wp2.insert(&key).unwrap();
+                            }
+                            wp.union(&ex).unwrap();
+                            ex2.union(&wp2).unwrap();
+                            stats.probe("cross_constructor_union");
+                            for &key in &case.keys {
+                                if !wp.query(&key) || !ex2.query(&key) {
+                                    viol.push(v("C01", "bloom/false-negative/cross-constructor-union", 0, format!("with_properties({}, {}) and with_params({}, {}) filters: key {} missing after a successful union", case.keys.len().max(4) * 4, p, wp.m(), wp.k(), key)));
+                                    return;
+                                }
+                            }
+                        }
+                    }
                     // AnyHash: different types in one filter
                     let mut ah = BloomFilter::<AnyHash>::with_params(m.max(64), k.max(1));
                     for &key in case.keys.iter().take(40) {
